@@ -239,9 +239,9 @@ QISKIT_USER = {"ch", "cu3", "id", "sdg", "tdg", "u2"}
 
 
 def impl_import(text, via_file=False):
-    """-> (verdict, qc, inner circuits of the user gates in creation order)"""
+    """-> (verdict, qc, {user gate name: gates of its temporary circuit})"""
     from qutip_qip import qasm
-    rec = []
+    rec = {}
     depth = [0]
     orig = qasm.QasmProcessor._custom_gate
 
@@ -252,7 +252,10 @@ def impl_import(text, via_file=False):
         finally:
             depth[0] -= 1
             if depth[0] == 0:
-                rec.append(qc_temp)
+                # the name under which `_gate_add` stores the unitary of this temporary circuit
+                name, args = gate_call[0], gate_call[1]
+                key = "{}({})".format(name, ",".join(args)) if args else name
+                rec[key] = list(qc_temp.gates)
 
     qasm.QasmProcessor._custom_gate = wrapped
     cwd = os.getcwd()
@@ -268,7 +271,7 @@ def impl_import(text, via_file=False):
                     qc = qasm.read_qasm(p)
                 else:
                     qc = qasm.read_qasm(text, strmode=True)
-        return "ok", qc, [list(t.gates) for t in rec]
+        return "ok", qc, rec
     except Exception as e:
         return EXC.get(type(e), "other:" + type(e).__name__), None, None
     finally:
@@ -285,17 +288,15 @@ def canon_gate(g):
 
 def impl_ops(qc, inners):
     from qutip_qip.operations import Measurement
-    ops, seen = [], {}
-    it = iter(inners)
+    ops = []
     for g in qc.gates:
         if isinstance(g, Measurement):
             ops.append(("meas", g.targets[0], g.classical_store))
         elif g.name in qc.user_gates and g.name not in QISKIT_USER:
-            if g.name not in seen:
-                seen[g.name] = [canon_gate(x) for x in next(it, [])]
             ops.append(("custom", {"name": g.name, "targets": list(g.targets),
                                    "cc": list(g.classical_controls) if g.classical_controls is not None else None,
-                                   "cv": g.classical_control_value, "inner": seen[g.name]}))
+                                   "cv": g.classical_control_value,
+                                   "inner": [canon_gate(x) for x in inners.get(g.name, [])]}))
         else:
             ops.append(("gate", canon_gate(g)))
     return ops
@@ -913,7 +914,8 @@ class C04(PropertyCheck):
 
     # ------------------------------------------------------------------------------------------------
     def oracle_replay(self, ctx, w):
-        return property_fails(w["prog"])
+        # witnesses found by the sweeps carry the mode they were evaluated in (known `if` bit order tolerated)
+        return property_fails(w["prog"], lenient_if=bool(w.get("_lenient_if")))
 
     def _stream(self, ctx):
         rng = ctx.rng
@@ -940,7 +942,7 @@ class C04(PropertyCheck):
                 continue
             f, d = property_fails(p, lenient_if=True)
             if f:
-                yield {"prog": p}, d
+                yield {"prog": p, "_lenient_if": True}, d
 
     def oracle_always(self, ctx):
         n = 0
@@ -952,7 +954,7 @@ class C04(PropertyCheck):
                 continue
             f, d = property_fails(p, lenient_if=True)
             if f:
-                yield {"prog": p}, d
+                yield {"prog": p, "_lenient_if": True}, d
 
 
 CHECK = C04()
